@@ -226,17 +226,17 @@ func (ch *channel) ReceiveAsync(ctx async.Context) ([]byte, bool, status.Status)
 
 	// Read next message
 	data, ok, st := s.recvQueue.Read()
-	if !ok || !st.OK() {
+	if !st.OK() {
 		return nil, ok, st
 	}
 
-	// Increment received
+	// Increment received, when no message there may be a delta which an earlier call could not send
 	size := int32(len(data))
 	recv := s.recvBytes.Add(size)
 
 	// Check window/2 reached
-	if recv < s.initWindow/2 {
-		return data, true, status.OK
+	if recv <= 0 || recv < s.initWindow/2 {
+		return data, ok, status.OK
 	}
 
 	// Decrement bytes, send window delta
@@ -245,14 +245,18 @@ func (ch *channel) ReceiveAsync(ctx async.Context) ([]byte, bool, status.Status)
 		st := s.sender.sendWindow(ctx, recv)
 		switch st.Code {
 		case status.CodeOK,
-			status.CodeCancelled,
 			status.CodeClosed,
 			status.CodeEnd:
+		case status.CodeCancelled,
+			status.CodeTimeout:
+			// The message is already taken from the queue, return it.
+			// The delta has not been sent, keep it for the next call.
+			s.recvBytes.Add(recv)
 		default:
 			return nil, false, st // unreachable
 		}
 	}
-	return data, true, status.OK
+	return data, ok, status.OK
 }
 
 // ReceiveWait returns a channel that is notified on a new message, or a channel close.
